@@ -20,7 +20,7 @@ ALL_FEATURES = ["err", "rty", "stall", "lock", "cti", "bte"]
 
 
 def gen_arb(rng, tier):
-    n = rng.choice([1, 2, 2, 3, 3, 4, 4, 5, 6])
+    n = rng.choice([1, 2, 2, 3, 3, 4, 4, 5, 6, 7, 8, 9])
     dw = rng.choice([8, 16, 32, 64])
     gran = rng.choice([g for g in (8, 16, 32, 64) if g <= dw])
     afeat = [f for f in ALL_FEATURES if rng.random() < 0.5]
@@ -30,7 +30,7 @@ def gen_arb(rng, tier):
         feat = [f for f in ALL_FEATURES if (f in ("err", "rty") and f in afeat) or rng.random() < 0.5]
         intrs.append({"gran": ig, "features": feat,
                       "behaviour": rng.choice(["random", "random", "sticky", "greedy", "locker", "polite"])})
-    return {"n": n, "aw": rng.choice([3, 4, 6, 8]), "dw": dw, "gran": gran, "features": afeat, "intrs": intrs,
+    return {"n": n, "aw": rng.choice([4, 6, 8, 16, 30]), "dw": dw, "gran": gran, "features": afeat, "intrs": intrs,
             "cycles": 300 if tier == "quick" else 900}
 
 
